@@ -65,11 +65,11 @@ theorem mk64_exact (n : Int) :
     (∃ hi lo, mk64 true (.int n) = .i64 hi lo ∧ (hi * 4294967296 + (lo : Int)) % 18446744073709551616 = n % 18446744073709551616) := by
   constructor
   · refine ⟨_, _, rfl, ?_⟩
-    simp only [Num.ceilInt, Num.truncInt, wrapU, Bool.false_eq_true, if_false]
+    simp only [mk64, Num.truncInt, wrapU, Bool.false_eq_true, if_false]
     simp
     omega
   · refine ⟨_, _, rfl, ?_⟩
-    simp only [Num.ceilInt, Num.truncInt, wrapU, wrapS, if_true]
+    simp only [mk64, Num.truncInt, wrapU, wrapS, if_true]
     simp
     split <;> omega
 
@@ -80,13 +80,13 @@ theorem mk64_back (signed : Bool) (hi : Int) (lo : Nat) (hlo : lo < 4294967296)
   have hm : (hi * 4294967296 + (lo : Int)) % 4294967296 = (lo : Int) := by omega
   cases signed
   · simp only [Bool.false_eq_true, if_false] at hhi
-    simp only [mk64, Num.ceilInt, Num.truncInt, Bool.false_eq_true, if_false, hd, wrapU]
+    simp only [mk64, Num.truncInt, Bool.false_eq_true, if_false, hd, wrapU]
     simp
     constructor
     · omega
     · omega
   · simp only [if_true] at hhi
-    simp only [mk64, Num.ceilInt, Num.truncInt, if_true, hd, wrapU]
+    simp only [mk64, Num.truncInt, if_true, hd, wrapU]
     simp
     constructor
     · exact wrapS_id 32 hi (by simp) (by simp; omega)
@@ -105,7 +105,7 @@ theorem roundtrip64_exact (signed : Bool) (hi : Int) (lo : Nat) (hlo : lo < 4294
 
 /-! ### scalars -/
 
-theorem roundtrip_scalar (τ : Ty) (v : GoVal) (h : RTScalar τ v) (hz : v ≠ .num .negZero) :
+theorem roundtrip_scalar (τ : Ty) (v : GoVal) (h : RTScalar τ v) :
     ∃ j, externalize τ v = .ok j ∧ internalize τ j = .ok v := by
   cases τ <;> cases v <;> simp only [RTScalar] at h
   case bool.bool b =>
@@ -377,174 +377,5 @@ theorem documented_table_ext (τ : Ty) (v : GoVal) (j : JsVal) (c : JsClass)
     subst hd
     cases v <;> simp only [externalize] at hx <;> try cases hx
     exact seq_class e _ j hu hx
-
-/-! ### composites: the inductive round-trip domain -/
-
-/-- types of the inductive round-trip domain: scalars and (nested) slices of them -/
-def domTy : Ty → Bool
-  | .bool | .int _ | .i64 | .u64 | .f32 | .f64 | .str => true
-  | .slice e => domTy e
-  | _ => false
-
-mutual
-/-- the documented round-trip domain, inductively: scalars "representable on both sides" (`RTScalar`), nil slices, and
-    slices of domain values (numeric element kinds travel as typed arrays, all others as Arrays) -/
-def RT (τ : Ty) (v : GoVal) : Prop :=
-  match τ, v with
-  | .slice _, .nil => True
-  | .slice e, .slice es => domTy e = true ∧ RTList e es
-  | τ, v => RTScalar τ v
-
-def RTList (e : Ty) (vs : List GoVal) : Prop :=
-  match vs with
-  | [] => True
-  | v :: r => RT e v ∧ RTList e r
-end
-
-mutual
-/-- no `-0` anywhere in the value -/
-def clean (τ : Ty) (v : GoVal) : Bool :=
-  match τ, v with
-  | .slice e, .slice es => cleanList e es
-  | _, .num .negZero => false
-  | _, _ => true
-
-def cleanList (e : Ty) (vs : List GoVal) : Bool :=
-  match vs with
-  | [] => true
-  | v :: r => clean e v && cleanList e r
-end
-
-theorem storeElems_none (gs : List GoVal) : storeElems none none gs = .ok gs := rfl
-
-/-- elements of a numeric slice: each is a number that internalizes to itself and is stored unchanged -/
-theorem numeric_elems (e : Ty) (c : TA) (hc : nativeTA e = some c) :
-    ∀ (es : List GoVal), RTList e es → cleanList e es = true →
-      ∃ xs : List Num, es = xs.map GoVal.num ∧ es.mapM getNum = .ok xs ∧
-        xs.mapM (fun x => internalize e (.num x)) = .ok es ∧ storeElems (some c) (some c) es = .ok es := by
-  intro es
-  induction es with
-  | nil => intro _ _; exact ⟨[], rfl, rfl, rfl, rfl⟩
-  | cons v r ih =>
-    intro h hcl
-    simp only [RTList] at h
-    simp only [cleanList, Bool.and_eq_true] at hcl
-    obtain ⟨xs, hxs, hg, hi, hst⟩ := ih h.2 hcl.2
-    have hv : RTScalar e v := by
-      have := h.1
-      cases e <;> simp [nativeTA] at hc <;> simpa [RT] using this
-    have hnz : v ≠ .num .negZero := by
-      intro e'; subst e'
-      have := hcl.1
-      cases e <;> simp [nativeTA] at hc <;> simp [clean] at this
-    obtain ⟨j, hx, hin⟩ := roundtrip_scalar e v hv hnz
-    -- v is a number
-    have : ∃ x, v = .num x ∧ j = .num x ∧ storeTA c (storeTA c x) = x := by
-      cases e <;> simp [nativeTA] at hc
-      case int k =>
-        cases v <;> simp only [RTScalar] at hv
-        rename_i x
-        cases x <;> simp only [RTScalar] at hv
-        rename_i n
-        simp [externalize] at hx
-        refine ⟨.int n, rfl, hx.symm, ?_⟩
-        have hc' : nativeTA (.int k) = some c := by cases k <;> simp_all [nativeTA]
-        rw [storeTA_id k c n hc' hv, storeTA_id k c n hc' hv]
-      case f32 =>
-        cases v <;> simp only [RTScalar] at hv
-        rename_i x
-        simp [externalize] at hx
-        subst hc
-        exact ⟨x, rfl, hx.symm, rfl⟩
-      case f64 =>
-        cases v <;> simp only [RTScalar] at hv
-        rename_i x
-        simp [externalize] at hx
-        subst hc
-        exact ⟨x, rfl, hx.symm, rfl⟩
-    obtain ⟨x, rfl, rfl, hs⟩ := this
-    refine ⟨x :: xs, by simp [hxs], ?_, ?_, ?_⟩
-    · simp [List.mapM_cons, getNum, hg, bind, Except.bind, pure, Except.pure]
-    · simp [List.mapM_cons, hin, hi, bind, Except.bind, pure, Except.pure]
-    · simp only [storeElems] at hst ⊢
-      rw [List.mapM_cons, hst]
-      simp [getNum, hs, bind, Except.bind, pure, Except.pure]
-
-
-theorem needsExt_false_dom (e : Ty) (hd : domTy e = true) (hn : needsExt e = false) : e = .bool ∨ ∃ c, nativeTA e = some c := by
-  cases e <;> simp_all [domTy, needsExt, nativeTA]
-  rename_i k; cases k <;> simp [nativeTA]
-
-theorem bool_elems : ∀ (es : List GoVal), RTList .bool es →
-    ∃ bs : List JsVal, nativeView .bool es = .ok (.arr bs) ∧ bs.mapM (fun j => internalize .bool j) = .ok es := by
-  intro es
-  induction es with
-  | nil => intro _; exact ⟨[], rfl, rfl⟩
-  | cons v r ih =>
-    intro h
-    simp only [RTList] at h
-    obtain ⟨bs, h1, h2⟩ := ih h.2
-    have hv : RTScalar .bool v := by simpa [RT] using h.1
-    cases v <;> simp only [RTScalar] at hv
-    rename_i b
-    refine ⟨.bool b :: bs, ?_, ?_⟩
-    · simp only [nativeView, nativeTA, bind, Except.bind] at h1 ⊢
-      rw [List.mapM_cons]
-      split at h1
-      · cases h1
-      · rename_i bs' hb
-        cases h1
-        rw [hb]; rfl
-    · rw [List.mapM_cons, h2]; simp [internalize, guardWrapper, truthy, bind, Except.bind, pure, Except.pure]
-
-mutual
-theorem roundtrip (τ : Ty) (v : GoVal) (h : RT τ v) (hc : clean τ v = true) :
-    ∃ j, externalize τ v = .ok j ∧ internalize τ j = .ok v := by
-  match τ, v, h, hc with
-  | .slice e, .nil, _, _ => exact ⟨.null, by simp [externalize], by simp [internalize]⟩
-  | .slice e, .slice es, h, hc =>
-    simp only [RT] at h
-    simp only [clean] at hc
-    by_cases hn : needsExt e = true
-    · obtain ⟨js, h1, h2⟩ := roundtripList e es h.2 hc
-      refine ⟨.arr js, by simp [externalize, hn, h1, bind, Except.bind], ?_⟩
-      simp [internalize, h2, (needsExt_doc e hn).2, storeElems, bind, Except.bind]
-    · have hn' : needsExt e = false := by simpa using hn
-      rcases needsExt_false_dom e h.1 hn' with rfl | ⟨c, hcc⟩
-      · obtain ⟨bs, h1, h2⟩ := bool_elems es h.2
-        refine ⟨.arr bs, by simp [externalize, needsExt, h1], ?_⟩
-        simp only [internalize, bind, Except.bind] at h2 ⊢
-        rw [h2]
-        simp [nativeTA, storeElems]
-      · obtain ⟨xs, _, hg, hi, hst⟩ := numeric_elems e c hcc es h.2 hc
-        refine ⟨.typed c xs, by simp [externalize, hn', nativeView, hcc, hg, bind, Except.bind], ?_⟩
-        simp [internalize, hi, hcc, hst, bind, Except.bind]
-  | .bool, v, h, hc => exact roundtrip_scalar _ v (by simpa [RT] using h) (by intro e; subst e; simp [RTScalar, RT] at h)
-  | .int k, v, h, hc => exact roundtrip_scalar _ v (by simpa [RT] using h) (by intro e; subst e; simp [RTScalar, RT] at h)
-  | .i64, v, h, hc => exact roundtrip_scalar _ v (by simpa [RT] using h) (by intro e; subst e; simp [RTScalar, RT] at h)
-  | .u64, v, h, hc => exact roundtrip_scalar _ v (by simpa [RT] using h) (by intro e; subst e; simp [RTScalar, RT] at h)
-  | .str, v, h, hc => exact roundtrip_scalar _ v (by simpa [RT] using h) (by intro e; subst e; simp [RTScalar, RT] at h)
-  | .f32, v, h, hc => exact roundtrip_scalar _ v (by simpa [RT] using h) (by intro e; subst e; simp [clean] at hc)
-  | .f64, v, h, hc => exact roundtrip_scalar _ v (by simpa [RT] using h) (by intro e; subst e; simp [clean] at hc)
-  | .slice e, .bool _, h, _ | .slice e, .num _, h, _ | .slice e, .i64 _ _, h, _ | .slice e, .str _, h, _ | .slice e, .arr _, h, _
-  | .slice e, .map _ _, h, _ | .slice e, .struct _, h, _ | .slice e, .ptr _, h, _ | .slice e, .iface _ _, h, _ | .slice e, .func _, h, _
-  | .slice e, .jsfunc _, h, _ | .slice e, .jsobj _, h, _ | .slice e, .opaque _, h, _ => simp [RT, RTScalar] at h
-  | .arr _ _, v, h, _ | .map _, v, h, _ | .struct _ _, v, h, _ | .ptr _, v, h, _ | .iface, v, h, _ | .func _ _ _, v, h, _ | .jsobj, v, h, _ =>
-    cases v <;> simp [RT, RTScalar] at h
-termination_by sizeOf v
-
-theorem roundtripList (e : Ty) (es : List GoVal) (h : RTList e es) (hc : cleanList e es = true) :
-    ∃ js, extList e es = .ok js ∧ js.mapM (internalize e) = .ok es := by
-  match es, h, hc with
-  | [], _, _ => exact ⟨[], by simp [extList], rfl⟩
-  | v :: r, h, hc =>
-    simp only [RTList] at h
-    simp only [cleanList, Bool.and_eq_true] at hc
-    obtain ⟨j, h1, h2⟩ := roundtrip e v h.1 hc.1
-    obtain ⟨js, h3, h4⟩ := roundtripList e r h.2 hc.2
-    refine ⟨j :: js, by simp [extList, h1, h3, bind, Except.bind], ?_⟩
-    rw [List.mapM_cons, h2, h4]; rfl
-termination_by sizeOf es
-end
 
 end GV.Proofs.JsConv
